@@ -1739,7 +1739,13 @@ func genC08(o *vcoq.Out, r *vcoq.Rand, tier string) error {
 		case 5:
 			g.writeDuringSeedCase(o, nb+1)
 		default:
-			g.streamCase(o, nil, ro, nb, r.Range(0, 10), tags)
+			// one in three with an equivalence on the collection (the held map of Collection.Pull):
+			// C08_ok then compares the fold with List(include) up to that equivalence
+			eq := g.equiv()
+			if eq != nil {
+				tags = append(tags, "equivalence")
+			}
+			g.streamCase(o, eq, ro, nb, r.Range(0, 10), tags)
 		}
 	}
 	return nil
